@@ -34,6 +34,23 @@ RULE = ("SCALE SWEEP in every stream: all lengths of a case are multiplied by a 
         "selection rotated by one); with_vertices of a coordinate array is also called with vertices other than its own; "
         "after every call the arrays handed in (indices, vertices, coordinates, the selection, "
         "the replacement vertices) and the shape's attributes must be unchanged and a second read must equal the first. "
+        "INPUT KINDS (phase 4; the value of every entry is the same in all kinds, so the model case is unchanged): vertex arrays as float64, "
+        "int64 (integer coordinates), float32 (only where every operation is exact in 24 bits), strided views of larger arrays, Fortran order, "
+        "read-only arrays, aa.Grid2DIrregular; index arrays as int64 / int32 / uint8 / strided / read-only; coordinate arrays as int64 / int32 / "
+        "int8 / integer-valued float64 / strided / read-only; selections as ndarray (int64, int32, read-only), Python list, negative "
+        "(wrap-around) positions and boolean masks; side and offsets as float / int / numpy scalar; constructor arguments that have their "
+        "DEFAULT value left out (side_length, x_offset, y_offset, flipped; scale of for_limits_and_scale), positional and keyword calls; Shape "
+        "arguments as floats / numpy scalars / ints / tuples / lists / ndarrays, positional or keyword, through a user SUBCLASS of each Shape "
+        "class and through the pytree round trip tree_unflatten(tree_flatten()). "
+        "DIRECTED RARE STATES: every non-point shape accepts a triangle by its own test of the triangle's centroid OR by the inherited "
+        "reference-point test; shapes are searched (exact rational evaluation of both tests, sizes of width / height / radius / corner offsets "
+        "independent from 1/16 to 3 scales, candidates aimed at the centroid of another triangle) until the set is in the state "
+        "'mixed' (one triangle accepted only by the centroid test AND another only by the reference point: elongated boxes, small "
+        "circles near a corner, thin triangles through the transposed test), 'ref_only', 'own_only' or 'unsorted' (box with top > bottom / "
+        "left > right, negative radius); every session and chain contains such a shape; every (lattice parity, flipped) state of a single "
+        "cell, an edge-sharing pair and a column of three goes through neighborhood / up_sample / triangles, also after up_sample(). "
+        "SIBLINGS: for_grid (= for_limits_and_scale of the grid's extreme coordinates and pixel scale), .means, iteration and len of both "
+        "classes are read with .triangles; sessions also re-wire an index row in place (A.indices[r] = ...) between reads. "
         "Comparisons: exact rationals wherever every double operation is exact (checked per case by replaying the arithmetic in rationals); "
         "Non-trivial = at least two triangles; distinct = distinct JSON input.")
 EXHAUSTIVE = {}
@@ -226,6 +243,7 @@ def gen_shape(rng, inside=False, want=None):
     if want:
         d["kind"] = r2.choice(["circle", "square", "square", "triangle", "polygon"]) if want is True or kind == "point" else kind
         d["want"] = r2.choice(WANTS) if want is True else want
+        if d["want"] == "mixed" and d["kind"] == "square" and r2.random() < 0.2: d["want"] = "unsorted"
     return d
 
 A_STEPS = ["recontain", "tris", "tris", "area", "up", "up", "nbr", "for", "with", "contain", "contain", "contain", "edit", "edit",
@@ -254,7 +272,7 @@ def gen_array_k(rng, session=False):
     """an ArrayTriangles input with its storage kinds; integer storage needs integer coordinates"""
     vk = rng.choice(["f64", "f64", "view", "fortran", "ro"] if session else VKINDS)
     if vk == "int":
-        sc = Fraction(4 * 2 ** rng.randint(0, 12))
+        sc = Fraction(4 * 2 ** (0 if rng.random() < 0.7 else rng.randint(1, 12)))       # at 4 the midpoints are half-integers
         A = gen_array(rng, sc=sc, off=[sc * rng.randint(-6, 6), sc * rng.randint(-6, 6)])
     elif vk == "f32":
         sc = pick_scale(rng)
@@ -290,8 +308,8 @@ def gen_inputs(tier, rng):
     # directed: rare states of the containment tests on meshes (neighbouring triangles), every non-point kind
     DIRECTED = [("circle", "mixed"), ("square", "mixed"), ("triangle", "mixed"), ("polygon", "mixed"), ("circle", "mixed"),
                 ("square", "ref_only"), ("triangle", "own_only"), ("polygon", "ref_only"), ("circle", "own_only"),
-                ("square", "mixed"), ("circle", "mixed"), ("square", "own_only")]
-    for i in range(72 if big else 12):
+                ("square", "mixed"), ("circle", "mixed"), ("square", "own_only"), ("square", "unsorted")]
+    for i in range(78 if big else 13):
         A = gen_array_k(rng)
         while len(A["idx"]) < 3: A = gen_array_k(rng)
         kind, want = DIRECTED[i % len(DIRECTED)]
@@ -411,7 +429,7 @@ def cshape(sh):
     if k == "square": return f"(QSquare {cqd(sh[1])} {cqd(sh[2])} {cqd(sh[3])} {cqd(sh[4])})"
     raise ValueError(k)
 
-PKINDS = ["float", "float", "np", "int", "arr", "lst", "sub", "pos"]
+PKINDS = ["float", "float", "np", "int", "arr", "lst", "sub", "pos", "tree"]
 _subclasses = {}
 def _sub(cls):
     """a user-defined SUBCLASS of a Shape class (nothing overridden): must be treated like the class itself"""
@@ -433,6 +451,10 @@ def py_shape(sh, pk="float"):
         return (fl(p[0]), fl(p[1]))
     cls = {"point": SH.Point, "circle": SH.Circle, "triangle": SH.Triangle, "polygon": SH.Polygon, "square": SH.Square}[k]
     if pk == "sub": cls = _sub(cls)
+    if pk == "tree" and "tree_unflatten" in vars(cls):      # (Square only inherits Point's, which cannot rebuild a Square)
+        # sibling constructor: the pytree round trip tree_unflatten(tree_flatten()) rebuilds the shape
+        children, aux = py_shape(sh, "float").tree_flatten()
+        return cls.tree_unflatten(aux, children)
     if k == "point": return cls(fl(sh[1][0]), fl(sh[1][1])) if pk == "pos" else cls(x=fl(sh[1][0]), y=fl(sh[1][1]))
     if k == "circle":
         if pk == "pos": return cls(fl(sh[1][0]), fl(sh[1][1]), fl(sh[2]))
@@ -658,7 +680,10 @@ def directed_shape(desc, tris, inexact_tris):
       'mixed'    -- some triangle is accepted ONLY by the centroid test and another ONLY by the reference-point test (needs
                     e.g. an elongated box / a small circle whose centre is in a triangle away from that triangle's centroid);
       'ref_only' -- no centroid is accepted, the reference point is inside a triangle;
-      'own_only' -- centroids are accepted, the reference point is in no triangle.
+      'own_only' -- centroids are accepted, the reference point is in no triangle;
+      'unsorted' -- a box given with top > bottom or left > right / a circle with a negative radius that accepts no centroid
+                    as it stands (the code compares with the bounds as given / squares the radius) although the box with
+                    sorted bounds would.
     Candidates are drawn (reference point by barycentric coordinates biased towards the corners and edges of a triangle of
     the set; half-width and half-height / radius / corner offsets independently from 1/16 to 3 scales, boxes also with
     top > bottom or left > right, radii also negative) until one is in the wanted state and off the rounding band."""
@@ -677,11 +702,13 @@ def directed_shape(desc, tris, inexact_tris):
         # half of the candidates are sized to just reach the centroid of ANOTHER triangle of the set
         t2 = tris[rng.randrange(len(tris))]
         aim = [mean_fr([v[0] for v in t2]), mean_fr([v[1] for v in t2])] if rng.random() < 0.5 and t2 is not t else None
+        norm = None
         if k == "circle":
             rad = sc * rng.choice(DSIZES)
             if aim is not None:
                 rad = frac(float((aim[0] - p[0]) ** 2 + (aim[1] - p[1]) ** 2) ** 0.5) * Fraction(rng.choice([9, 10, 12]), 8)
-            sh = ("circle", p, rad * (-1 if rng.random() < 0.08 else 1))
+            sh = ("circle", p, rad * (-1 if rng.random() < 0.08 or want == "unsorted" else 1))
+            norm = ("circle", p, abs(rad))
         elif k == "square":
             hw, hh = sc * rng.choice(DSIZES), sc * rng.choice(DSIZES)
             if aim is not None:
@@ -689,6 +716,8 @@ def directed_shape(desc, tris, inexact_tris):
                 hh = abs(aim[1] - p[1]) * Fraction(9, 8) + sc * rng.choice([0, Fraction(1, 32), Fraction(1, 8)])
             top, bottom, lft, rgt = p[1] - hh, p[1] + hh, p[0] - hw, p[0] + hw
             u = rng.random()
+            norm = ("square", top, bottom, lft, rgt)
+            if want == "unsorted": u = u / 10
             if u < 0.05: top, bottom = bottom, top
             elif u < 0.10: lft, rgt = rgt, lft
             sh = ("square", top, bottom, lft, rgt)
@@ -709,10 +738,14 @@ def directed_shape(desc, tris, inexact_tris):
                     pts = [[sa[0] + q[0], sa[1] + q[1]] for q in e]
             sh = ("triangle",) + tuple(pts) if k == "triangle" else ("polygon", pts)
         sh = snap_shape(sh)
+        if norm is not None: norm = snap_shape(norm)
         tt = two_tests(sh, tris)
         own_only = any(o and not r for o, r in tt); ref_only = any(r and not o for o, r in tt)
         hit = {"mixed": own_only and ref_only, "ref_only": ref_only and not any(o for o, _ in tt),
                "own_only": own_only and not any(r for _, r in tt)}.get(want, False)
+        if want == "unsorted":
+            # the parameters as given accept no centroid, their sorted / absolute values would accept one
+            hit = norm is not None and not any(o for o, _ in tt) and any(o and not r for o, r in two_tests(norm, tris))
         if not hit and (fallback is not None or attempt < 45): continue
         try: check_band(sh, tris, inexact_tris)
         except Band: continue
@@ -1048,6 +1081,7 @@ def pool_shape(pool, st, tris, inexact):
 def a_steps(se, A, idx, verts, steps, pool, sc_hint):
     """steps on an ArrayTriangles object: (idx, verts) is the exact description of its CURRENT arrays"""
     base_idx, base_verts, edits = [list(r) for r in idx], [list(v) for v in verts], []
+    rbase_idx, rbase_verts, rw = [list(r) for r in idx], [list(v) for v in verts], []       # history of index-row writes
     for n, st in enumerate(steps):
         k = st["k"]; r = random.Random(st["seed"]); name = f"{n}:{k}"
         nt = len(idx)
@@ -1110,6 +1144,34 @@ def a_steps(se, A, idx, verts, steps, pool, sc_hint):
                     cases += c2; ok = ok and ok2; hit += o2
                 except Band: pass
             A.up_sample(); A.neighborhood(); A.for_indexes(np.array([0], dtype=int))       # results discarded
+            if r.random() < 0.4 and isinstance(A.indices, np.ndarray) and A.indices.flags.writeable:
+                # the user re-wires one triangle: A.indices[row] = three (other) vertex numbers, in place; every later read
+                # is a function of the arrays as they are now
+                row = r.randrange(nt); new_row = [r.randrange(len(verts)) for _ in range(3)]
+                A.indices[row] = new_row
+                idx = [list(q) for q in idx]; idx[row] = new_row
+                base_idx, base_verts, edits = [list(q) for q in idx], [list(v) for v in verts], []
+                rw.append((row, new_row))
+                out = fr_tris(A.triangles)
+                rws = clist([f"(Rw {int(e[0])} (I3 {int(e[1][0])} {int(e[1][1])} {int(e[1][2])}))" for e in rw])
+                cases.append(f"(KARewires {catri(rbase_idx, rbase_verts)} {rws} {ctris(out)})")
+                c2, ok2, _, _ = array_op(A, idx, verts, "tris")
+                cases += c2; ok = ok and ok2
+                c2, ok2, _, _ = array_op(A, idx, verts, "area")
+                cases += c2; ok = ok and ok2
+                which = ("up", "nbr", "for")[st["seed"] % 3] if nt <= 8 else "for"
+                c2, ok2, _, _ = array_op(A, idx, verts, which, [row] if which == "for" else None)
+                cases += c2; ok = ok and ok2
+                for sh, P in pool.values():
+                    try:
+                        check_band(sh, tris_of(idx, verts), False)
+                        c2, ok2, _ = contain_op(A, tris_of(idx, verts), sh, P, lambda o, i_=idx, v_=verts, s_=sh: f"(KAContain {catri(i_, v_)} {cshape(s_)} {cnats(o)})")
+                        cases += c2; ok = ok and ok2
+                    except Band: pass
+                same = (bool(np.array_equal(np.asarray(A.indices), np.array(idx, dtype=int).reshape(-1, 3))) and fr_pts(A.vertices) == verts)
+                se.add(name + ":index-row", cases, ok and same, out)
+                if not same: return
+                continue
             j = r.randrange(len(verts))
             p = [verts[j][0] + sc * Fraction(r.randint(-6, 6), 4), verts[j][1] + sc * Fraction(r.randint(-6, 6), 4)]
             u = r.random()
@@ -1123,6 +1185,7 @@ def a_steps(se, A, idx, verts, steps, pool, sc_hint):
             A.vertices[j] = [float(p[0]), float(p[1])]
             verts = [list(v) for v in verts]; verts[j] = p
             edits.append((j, p))
+            rbase_idx, rbase_verts, rw = [list(q) for q in idx], [list(v) for v in verts], []
             # ... and again AFTER it: triangles, area, the pooled shapes, and one of up_sample / neighborhood / for_indexes
             out = fr_tris(A.triangles)
             es = clist([f"(Ed {int(e[0])} {cpt(e[1])})" for e in edits])
@@ -1148,6 +1211,7 @@ def a_steps(se, A, idx, verts, steps, pool, sc_hint):
         if k.startswith("move_") and R is not None and len(R.indices):
             A = R; idx, verts = atri_of(R)
             base_idx, base_verts, edits = [list(q) for q in idx], [list(v) for v in verts], []
+            rbase_idx, rbase_verts, rw = [list(q) for q in idx], [list(v) for v in verts], []
 
 def c_steps(se, C, steps, pool):
     S0 = cs_of(C); it = fr_tris(C.triangles); keep = np.array(C.coordinates).copy()
